@@ -20,6 +20,8 @@ from C02 import split_segments, validate, MC_CFG, report_live_bad
 
 def signature(ev, verdict, had_discard, second_level=False):
     mode = "kill" if ev["mode"].startswith("kill") and "power" not in ev["mode"] else "power-loss"
+    if not verdict["opens"]:
+        return "recovery:%s:open-fails" % mode
     if not ev.get("linkOk", True):
         return "recovery:%s:linear-chain-broken" % mode
     if second_level and verdict["opens"] and verdict["survives"] and verdict["values"] and (not verdict["proofs"] or not verdict["extension"]) and "ReadTx" not in ev.get("detail", ""):
@@ -96,6 +98,11 @@ def run(chk, args):
                               % (ev["mode"], ev["k"], json.dumps(item["verdict"]), ev.get("detail", ""), json.loads(flat[start]).get("cfg")),
                               {"config": json.loads(flat[start]).get("cfg"), "seed": chk.seed, "crash_point": ev["k"], "mode": ev["mode"],
                                "recovered": ev, "logical_trace_prefix": [json.loads(x) for x in flat[start:item["line"]] if '"Recovered"' not in x][-60:]})
+    # server level: the durability options that pkg/server / pkg/database hand to every database's store, and crash images of those stores
+    import C03srv
+    t0 = time.time()
+    C03srv.server_phase(chk, wd, thorough)
+    vlib.log("[C03] server-level phase: %.0fs" % (time.time() - t0))
     chk.cov["second_level_segments"] = nfree - runs
     chk.cov["script_segments"] = len(segs) - nfree
     r["traces"] = nfree
